@@ -206,7 +206,13 @@ func genC15Case(r *rand.Rand, kind string) c15Case {
 		// edits confined to data rows: change cells, delete a row, add rows, a remark cell right of the table
 		for e := 1 + r.Intn(3); e > 0; e-- {
 			rows := v2.Sheets[0].Rows
-			switch r.Intn(4) {
+			switch r.Intn(6) {
+			case 4:
+				rows = rows[:3] // all data rows deleted: the header is all that is left
+			case 5:
+				if len(rows) > 3 {
+					rows = rows[:4] // a single data row left
+				}
 			case 0:
 				if len(rows) > 3 {
 					k := 3 + r.Intn(len(rows)-3)
